@@ -593,6 +593,7 @@ PARAM_GRID = {
     "ssGN": [dict(zip(SSGN_P, v)) for v in ([2.4, 0.6, 1.2, 3.5, 0.8], [1] * 5, [0.1, 4.0, 0.3, 0.9, 6.0])],
 }
 NUC_MODELS = ["JC69", "F81", "K80", "HKY85", "TN93", "GTR", "GN", "ssGN"]
+SOLVED_MODELS = ("JC69", "F81", "K80", "HKY85", "TN93")      # get_model(..., rate_matrix_required=False) is accepted
 
 
 def _rules(lengths, params, via="rule"):
@@ -693,6 +694,9 @@ def gen_nucleotide(tier, seed):
                         tr = newick_of(sh, {e: (v if via == "tree" else 1.0) for e, v in la.items()})[0]
                     case = {"model": model, "tree": tr, "len_via": via, "rules": _rules(la, params, via),
                             "aln": _words_for(ntips, thorough)}
+                    if model in SOLVED_MODELS and i % 2:
+                        # the closed-form P(t) of the predefined nucleotide models (no rate matrix, no exponentiation)
+                        case["mkw"] = {"rate_matrix_required": False}
                     if pi:
                         case["pi"] = pi
                         case["pi_via"] = "model" if i % 7 == 0 else "lf"
